@@ -1,4 +1,5 @@
 import ChythonModel.Model.SmartsFull
+import ChythonModel.Model.C08Match
 /-!
 # C08 driver — line protocol (all arguments are ints; strings travel as code points)
 
@@ -17,6 +18,9 @@ import ChythonModel.Model.SmartsFull
 * `sf <nrad> <rad>* <cp>*`                        → `smarts()` on the full syntax (branches, closures, plain atoms)
 * `m1 <ncp> <cp>* <mol> <nrings> …`               → atoms matched by the single-atom SMARTS (sorted)
 * `m2 <ncp> <cp>* <mol> <nrings> …`               → ordered atom pairs matched by a two-atom SMARTS
+* `mn <ncp> <cp>* <mol> <nrings> … <ncomp> <len>*ncomp <atom>*` → all mappings of a pattern of any size (full text syntax) found by
+                                                    `get_mapping(mol, automorphism_filter=False, _cython=False)`, in yield order:
+                                                    `ok img … ; img …` (images in query-atom order) | `stereo` | `noquery` | `raises`
 -/
 open ChythonModel.Py ChythonModel.Model ChythonModel.Model.Query
 
@@ -310,6 +314,28 @@ def handle (line : String) : String :=
                | _ => "noquery")
             | none => "error mol")
          | none => "error m2")
+      | "mn" =>
+        (match takeList xs with
+         | some (cps, rest) =>
+           (match readMolRings rest with
+            | some (m, rings, rest') =>
+              (match takeList rest' with
+               | some (lens, flat) =>
+                 let rec split : List Nat → List Nat → List (List Nat)
+                   | [], _ => []
+                   | k :: ks, l => l.take k :: split ks (l.drop k)
+                 let tComps := split (nats lens) (nats flat)
+                 if !ChythonModel.Model.Iso.checkComponents (molIsoGraph m) tComps then "error components" else
+                 (match smartsFull (nats cps) [] with
+                  | .ok g =>
+                    if hasStereo g then "stereo" else
+                    (match patternMapping g m rings tComps with
+                     | some r => "ok " ++ " ; ".intercalate (r.map fun d => showNats (imagesInQueryOrder g d))
+                     | none => "raises")
+                  | _ => "noquery")
+               | none => "error comps")
+            | none => "error mol")
+         | none => "error mn")
       | _ => "error op"
 
 def main : IO Unit := runDriver handle
